@@ -51,6 +51,7 @@ pub struct Mode {
     pub ops: u32,
     pub judge_values: bool,
     pub judge_region: bool,
+    pub judge_panics: bool,
 }
 
 pub fn mode_for(prop: &str) -> Mode {
@@ -59,20 +60,26 @@ pub fn mode_for(prop: &str) -> Mode {
             ops: OP_FIND | OP_FIND_RAW | OP_RAW_EMPTY | OP_RAW_INV,
             judge_values: true,
             judge_region: false,
+            judge_panics: true,
         },
         "C02" => Mode {
             ops: OP_RFIND | OP_RFIND_RAW | OP_RAW_EMPTY | OP_RAW_INV,
             judge_values: true,
             judge_region: false,
+            judge_panics: true,
         },
         "C07" => Mode {
             ops: OP_COUNT | OP_COUNT_RAW,
             judge_values: true,
             judge_region: false,
+            judge_panics: true,
         },
-        "C05" => Mode { ops: OPS_ALL, judge_values: false, judge_region: true },
-        // C09, C14 and anything else: all operations, values judged
-        _ => Mode { ops: OPS_ALL, judge_values: true, judge_region: false },
+        // C05 judges memory accesses only (checked loads here; guard-page faults and sanitizers elsewhere)
+        "C05" => Mode { ops: OPS_ALL, judge_values: false, judge_region: true, judge_panics: false },
+        // C14 judges panics only: a wrong value is not a panic
+        "C14" => Mode { ops: OPS_ALL, judge_values: false, judge_region: false, judge_panics: true },
+        // C09 and anything else: all operations, values and panics judged
+        _ => Mode { ops: OPS_ALL, judge_values: true, judge_region: false, judge_panics: true },
     }
 }
 
@@ -614,6 +621,9 @@ pub fn exhaustive(ctx: &Ctx, mode: Mode, places: &[&str]) -> Frag {
                                 frag.violation(v);
                                 break 'outer;
                             }
+                            Err(_) if !mode.judge_panics => {
+                                region_off();
+                            }
                             Err(p) => {
                                 region_off();
                                 let msg = panic_msg(&p);
@@ -735,6 +745,9 @@ pub fn bitmaps(ctx: &Ctx, mode: Mode) -> Frag {
                             frag.violation(v);
                             break 'outer;
                         }
+                        Err(_) if !mode.judge_panics => {
+                            region_off();
+                        }
                         Err(p) => {
                             region_off();
                             let msg = panic_msg(&p);
@@ -801,6 +814,9 @@ pub fn bitmaps(ctx: &Ctx, mode: Mode) -> Frag {
                             Ok(Some(v)) => {
                                 frag.violation(v);
                                 break 'outer;
+                            }
+                            Err(_) if !mode.judge_panics => {
+                                region_off();
                             }
                             Err(p) => {
                                 region_off();
@@ -1001,8 +1017,10 @@ pub fn pbt(ctx: &Ctx, mode: Mode) -> Frag {
                     bad = Some(violation_json(ctx, imp, op_name(op), &c.needles, placed, c.place, &ex, &ob, "wrong answer"));
                 }
                 Err(p) => {
-                    let msg = panic_msg(&p);
-                    bad = Some(violation_json(ctx, imp, "panic", &c.needles, placed, c.place, "no panic", &msg, &format!("panic: {}", msg)));
+                    if mode.judge_panics {
+                        let msg = panic_msg(&p);
+                        bad = Some(violation_json(ctx, imp, "panic", &c.needles, placed, c.place, "no panic", &msg, &format!("panic: {}", msg)));
+                    }
                 }
             }
             if mode.judge_region {
